@@ -36,9 +36,42 @@ func init() {
 			if tier == "thorough" {
 				n = 4
 			}
-			return append(c15Plan(tier).suites(), core.Suite{Name: "huge", N: n, CaseTimeout: 1800})
+			return append(c15Plan(tier).suites(), core.Suite{Name: "huge", N: n, CaseTimeout: 1800}, core.Suite{Name: "long", N: 40 * n, CaseTimeout: 600})
 		},
 		Run: func(c *core.Ctx) {
+			if c.Suite == "long" {
+				// recordings of several hundred blocks over a small forest (added after seeded change
+				// C15i, an 8-bit block coordinate): every other suite stops at a few dozen blocks
+				tag := uint64(c.Seed)<<32 | uint64(c.Index) | 1<<50
+				nb := 258 + c.Rng.Intn(400)
+				if c.Tier == "thorough" && c.Index%40 == 7 {
+					nb = 65536 + 2 + c.Rng.Intn(40) // ... and one past 2^16 blocks
+				}
+				h := gen.History{Tag: tag}
+				m := &rm.Model{}
+				var ctr uint64
+				for bi := 0; bi < nb; bi++ {
+					var b gen.Block
+					if live := m.Live(); len(live) > 0 && c.Rng.Intn(3) == 0 {
+						k := 1 + c.Rng.Intn(2)
+						c.Rng.Shuffle(len(live), func(i, j int) { live[i], live[j] = live[j], live[i] })
+						if k > len(live) {
+							k = len(live)
+						}
+						b.Dels = append([]int(nil), live[:k]...)
+					}
+					if c.Rng.Intn(4) == 0 || bi == 0 {
+						b.Adds = 1 + c.Rng.Intn(2)
+					}
+					if len(m.Live()) > 12 {
+						b.Adds = 0
+					}
+					gen.ApplyToModel(m, b, tag, &ctr)
+					h.Blocks = append(h.Blocks, b)
+				}
+				c15Check(c, histScenario{History: h})
+				return
+			}
 			if c.Suite == "huge" {
 				// more than 2^16 leaves that will be deleted are alive at once, and the limit is larger still
 				tag := uint64(c.Seed)<<32 | uint64(c.Index) | 1<<51
